@@ -753,11 +753,9 @@ pub const FILE_FEATURES: &[&str] = &["static", "dyn-prop", "callback-param", "mu
 /// labelled `uid:f90-not-xml-name`.  They are generated only once the finding is LISTED in KNOWN_FINDINGS.json (known or
 /// fixed): until then they would make the check alarm on the unchanged tree (same convention as F50 in c18.rs).  The
 /// witnesses wait in .work/PIN.C07.f90_names_not_xml_representable.c07.req; move them to corpus/C07/ together with the entry.
+/// (F90 is repaired in /repo 16abc48: the cases are regression cases now and always generated.)
 pub fn f90_cases() -> bool {
-    static LISTED: std::sync::OnceLock<bool> = std::sync::OnceLock::new();
-    *LISTED.get_or_init(|| {
-        std::fs::read_to_string(concat!(env!("CARGO_MANIFEST_DIR"), "/../KNOWN_FINDINGS.json")).map(|t| t.contains("\"F90\"")).unwrap_or(false)
-    })
+    true
 }
 
 /// (what, text, type name, dir)
